@@ -4,7 +4,7 @@ cAddrs == {"a1", "a2", "a3", "a4", "a5", "a6"}
 cKeyOrd == <<"v1", "v2", "v3", "none", "v4", "v5", "v6", "v9">>
 cGenesis == [keypers |-> <<"a1", "a2", "a3", "a4", "a5", "a6">>, thr |-> 2, eon0 |-> 0,
              vals |-> [k \in {"v1", "v2", "v3", "none", "v4", "v5", "v6", "v9"} |-> IF k = "v9" THEN 10 ELSE 0],
-             forkOn |-> FALSE, forkH |-> 0, dev |-> FALSE]
+             forkOn |-> FALSE, forkH |-> 0, dev |-> FALSE, legacy |-> FALSE]
 cCands == << [keypers |-> <<"a1", "a2">>, thr |-> 2, act |-> 1, idx |-> 1] >>
 cSeenBlocks == {1}
 cCheckKeys == {"v1", "v4"}
